@@ -471,6 +471,12 @@ pub fn run_filter_write(
         }
         let got: &[u8] = if to_file { r.out_file.as_deref().unwrap_or(&[]) } else { &r.stdout };
         let tag = |m: String| format!("{m} [cmd: {} ; {:?}]", spec.cmdline(), spec.input_mode);
+        // an input the tool refuses before processing starts (empty: no first RDH) writes nothing: a
+        // destination file left by an earlier run is then, rightly, not touched
+        let refused_untouched = input.is_empty() && r.status != 0 && spec.stale_outputs.is_some();
+        if refused_untouched {
+            continue;
+        }
         if got != expected.as_slice() {
             let pos = got.iter().zip(expected.iter()).position(|(a, b)| a != b).unwrap_or(got.len().min(expected.len()));
             out.fail = fail(
